@@ -743,3 +743,33 @@ package gorm
 //@   let select0 = db.Statement.Clauses["SELECT"]
 //@   ensures ordering-restored: hadOrder && !grouped ==> has(result.Statement.Clauses, "ORDER BY") && result.Statement.Clauses["ORDER BY"] == order0
 //@   ensures selection-restored: hadSelect ==> has(result.Statement.Clauses, "SELECT") && result.Statement.Clauses["SELECT"] == select0
+
+//@ # ---------- C19: ToSQL renders the receiver's chain in a dry-run session ----------
+//@ # The handle given to the callback is a DryRun session (no driver call), without the implicit transaction, and it
+//@ # continues the receiver's own chain (not NewDB): the text shown is the statement the same chain would send.
+//@ site to-sql-session
+//@   match call gorm.(*DB).Session
+//@   in gorm.(*DB).ToSQL
+//@   min-sites 1
+//@   assert dry-run-session: arg1.DryRun && arg1.SkipDefaultTransaction [C19]
+//@   assert continues-the-receivers-chain: arg0 == db && !arg1.NewDB [C19]
+
+//@ # ---------- C15: "no rows" is not "no error" ----------
+//@ # Scan reports the same rows and errors as Find: when the cursor's first Next is false the cursor's error is looked
+//@ # at and recorded (a driver failure while producing the first row ends the iteration just like an empty result).
+//@ ghost cursorEnded cursorErrPending cursorErrTag cursorErrBox
+//@ event call database/sql.(*Rows).Next
+//@   in gorm.(*DB).Scan
+//@   do cursorEnded = ite(result, 0, 1)
+//@   do cursorErrPending = ite(result, cursorErrPending, 1)
+//@ event call database/sql.(*Rows).Err
+//@   in gorm.(*DB).Scan
+//@   do cursorErrTag = tagof(result)
+//@   do cursorErrBox = boxof(result)
+//@   do cursorErrPending = 2
+//@ event call (*DB).AddError
+//@   in gorm.(*DB).Scan
+//@   do cursorErrPending = ite(cursorErrPending == 2 && tagof(arg1) == cursorErrTag && boxof(arg1) == cursorErrBox, 0, cursorErrPending)
+//@ func (*DB).Scan
+//@   tags C15
+//@   ensures cursor-error-recorded-when-no-row: old(cursorErrPending) == 0 ==> cursorErrPending == 0
